@@ -47,6 +47,11 @@ pub struct CursorChecker<I: RainDbIterator<Key = Vec<u8>, Error = raindb::RainDB
     /// which `status()` is clean must be at the cursor's position.
     pub tolerate_reported_errors: bool,
     pub reported_errors: u64,
+    /// Fault-tolerant mode: a counter of the faults injected so far. A re-positioning call (seek,
+    /// seek_to_first, seek_to_last) during which no fault fired and which returned Ok must leave a
+    /// clean status: an error reported then is a left-over of an earlier step, and the call has
+    /// neither failed nor taken effect.
+    pub fault_probe: Option<std::sync::Arc<dyn Fn() -> u64 + Send + Sync>>,
     /// last key the iterator was correctly positioned at / where to seek back to after an error
     last_key: Option<Vec<u8>>,
     resync_key: Option<Vec<u8>>,
@@ -64,6 +69,7 @@ impl<I: RainDbIterator<Key = Vec<u8>, Error = raindb::RainDBError>> CursorChecke
             reversals: 0,
             tolerate_reported_errors: false,
             reported_errors: 0,
+            fault_probe: None,
             last_key: None,
             resync_key: None,
         }
@@ -79,6 +85,7 @@ impl<I: RainDbIterator<Key = Vec<u8>, Error = raindb::RainDBError>> CursorChecke
             let valid = self.pos.is_some() && (!self.tolerate_reported_errors || self.iter.is_valid());
             let roll = rng.below(100);
             let mut seek_failed = false;
+            let faults_before = self.fault_probe.as_ref().map(|f| f());
             let op: String;
             let mut returned: Option<Option<(Vec<u8>, Vec<u8>)>> = None;
             let mut dir_now = Dir::None;
@@ -187,6 +194,18 @@ impl<I: RainDbIterator<Key = Vec<u8>, Error = raindb::RainDBError>> CursorChecke
                 self.trace.remove(0);
             }
             self.trace.push(op.clone());
+            if self.tolerate_reported_errors && !seek_failed && returned.is_none() && dir_now == Dir::None {
+                // a re-positioning call that returned Ok
+                if let (Some(before), Some(probe)) = (faults_before, self.fault_probe.as_ref()) {
+                    if probe() == before {
+                        if let Some(e) = self.iter.status() {
+                            out.violate(format!("{prop}/cursor/stale-error-after-a-reposition-that-met-no-fault"),
+                                json!({"ctx": ctx, "op": op, "status": e.to_string(), "iterator_valid": self.iter.is_valid(), "trace": self.trace}));
+                            return false;
+                        }
+                    }
+                }
+            }
             if self.tolerate_reported_errors && (seek_failed || self.iter.status().is_some()) {
                 // the error was reported to the caller: nothing is promised about the position
                 self.reported_errors += 1;
